@@ -288,7 +288,9 @@ fn model_next_deadline(st: &St) -> Option<u64> {
 }
 
 fn any_indeterminate_timer(st: &St) -> bool {
-    st.srcs.values().any(|s| s.indeterminate && matches!(s.k, K::Timer(_)))
+    // timers the model does not follow individually: those of indeterminate sources and the
+    // timer children of transient wrappers
+    st.srcs.values().any(|s| (s.indeterminate && matches!(s.k, K::Timer(_))) || matches!(&s.k, K::Trans(t) if t.children.iter().any(|c| c.is_timer)))
 }
 
 fn after_dispatch(sim: &Rc<Sim>, t: Timeout, ok: bool, err: Option<String>, t_start: u64, t_end: u64) {
@@ -617,7 +619,7 @@ fn compute_must(sim: &Sim) {
                     }
                 }
             }
-            K::Failed => {}
+            K::Trans(_) | K::Failed => {}
         }
     }
     st.must = must;
@@ -748,7 +750,14 @@ pub fn event_end(sim: &Sim, _key: usize) {
                     };
                     match fin {
                         PostAction::Reregister => s.exp[1] += 1,
-                        PostAction::Disable => s.exp[2] += 1,
+                        PostAction::Disable => {
+                            s.exp[2] += 1;
+                            if !s.inserted && matches!(s.k, K::Trans(_)) {
+                                // disabled and removed in one event: the loop unregisters the
+                                // parent twice in a row, outside C18's proviso
+                                s.indeterminate = true;
+                            }
+                        }
                         _ => {}
                     }
                     if s.inserted {
@@ -766,6 +775,9 @@ pub fn event_end(sim: &Sim, _key: usize) {
                                 s.inserted = false;
                                 s.enabled = false;
                                 remove_key = s.reg_key;
+                                if let K::Trans(t) = &mut s.k {
+                                    crate::transient::parent_registration(t, 2);
+                                }
                             }
                         }
                     }
@@ -823,6 +835,11 @@ pub fn event_end(sim: &Sim, _key: usize) {
         return;
     }
     check_counts(sim, ended);
+    if let Some(id) = ended {
+        if !sim.is_dead() {
+            crate::transient::check(sim, id, "event_end");
+        }
+    }
 }
 
 /// C09: register / reregister / unregister calls seen by every wrapped source against the
@@ -865,6 +882,7 @@ pub fn check_counts(sim: &Sim, during: Option<Id>) {
 /// Model effect of a successful (re)registration of an enabled source.
 pub fn model_reregistered(s: &mut Src, _now: u64) {
     match &mut s.k {
+        K::Trans(t) => crate::transient::parent_registration(t, 1),
         K::Timer(t) => {
             t.armed = t.deadline.is_some();
             if t.armed {
@@ -884,6 +902,9 @@ pub fn model_reregistered(s: &mut Src, _now: u64) {
 pub fn model_disabled(s: &mut Src) {
     s.enabled = false;
     s.was_disabled = true;
+    if let K::Trans(t) = &mut s.k {
+        crate::transient::parent_registration(t, 2);
+    }
     if let K::Timer(t) = &mut s.k {
         t.armed = false;
     }
@@ -892,6 +913,9 @@ pub fn model_disabled(s: &mut Src) {
 pub fn model_enabled(s: &mut Src, now: u64) {
     s.enabled = true;
     s.reenabled = true;
+    if let K::Trans(t) = &mut s.k {
+        crate::transient::parent_registration(t, 0);
+    }
     model_reregistered(s, now);
 }
 
@@ -1040,13 +1064,18 @@ fn step_invariants(sim: &Rc<Sim>, p: &Program, i: usize) {
         if sim.is_dead() {
             return;
         }
+        crate::transient::check_all(sim, "step");
+        if sim.is_dead() {
+            return;
+        }
         // timer residue: bounded by live timers, must not accumulate
         let st = sim.st.borrow();
         let armed = st.srcs.values().filter(|s| s.inserted && s.enabled && matches!(&s.k, K::Timer(t) if t.armed)).count();
         let live_timers = st.srcs.values().filter(|s| matches!(&s.k, K::Timer(_)) && (s.inserted || s.indeterminate)).count();
         let extra = st.extra_timer_entries;
         drop(st);
-        if !any_indet && stats.timer_heap_len > armed + live_timers + extra + 4 {
+        let trans_timers = sim.st.borrow().srcs.values().filter_map(|s| if let K::Trans(t) = &s.k { Some(t.children.iter().filter(|c| c.is_timer).count()) } else { None }).sum::<usize>();
+        if !any_indet && stats.timer_heap_len > armed + live_timers + extra + trans_timers + 4 {
             sim.violate("timer.residue", vec![], format!("timer heap holds {} entries for {} armed timers ({} live)", stats.timer_heap_len, armed, live_timers));
             return;
         }
